@@ -36,7 +36,7 @@ M = [
  # ---- C02
  ('c02-withdraw-keeps-claim', ['C02', 'C05'], EX, '    remove_unstake_request(&mut deps, info.sender.to_string(), batch.id)?;\n', ''),
  ('c02-fee-accrued-and-paid', ['C02', 'C11'], EX, '    if config.protocol_fee_config.treasury_address.is_none() {\n        state.total_fees += fee;\n    }', '    state.total_fees += fee;'),
- ('c02-feewithdraw-bound-dropped', ['C02', 'C11'], EX, '    if state.total_fees < amount {\n        return Err(ContractError::InsufficientFunds {});\n    }', ''),
+ ('c02-feewithdraw-bound-dropped', ['C02', 'C11', 'C16'], EX, '    if state.total_fees < amount {\n        return Err(ContractError::InsufficientFunds {});\n    }', ''),
  ('c02-recover-keeps-packets', ['C02', 'C07'], EX, '        INFLIGHT_PACKETS.remove(deps.storage, packet.sequence);\n', ''),
  # ---- C03
  ('c03-native-delivery-paid-amount', ['C03'], EX, 'Coin::new(mint_amount.u128(), &config.liquid_stake_token_denom),', 'Coin::new(amount.u128(), &config.liquid_stake_token_denom),'),
